@@ -104,18 +104,18 @@ def tag(number, wt, pad=0):
     return varint((number << 3) | wt, pad, 5)
 
 
-def scalar_payload(kind, v):
-    """payload bytes of one scalar (no tag, no length)"""
+def scalar_payload(kind, v, pad=0):
+    """payload bytes of one scalar (no tag, no length); pad: padding bytes of a value varint (non-minimal but legal, at most 10 bytes)"""
     if kind in ("int32", "int64", "enum"):
-        return varint(u64(v))
+        return varint(u64(v), pad)
     if kind in ("uint32", "uint64"):
-        return varint(v)
+        return varint(v, pad)
     if kind == "sint32":
-        return varint(zigzag(v, 32))
+        return varint(zigzag(v, 32), pad)
     if kind == "sint64":
-        return varint(zigzag(v, 64))
+        return varint(zigzag(v, 64), pad)
     if kind == "bool":
-        return _b(_bool_int(v))
+        return varint(_bool_int(v), pad) if pad else _b(_bool_int(v))
     if kind in ("fixed32", "sfixed32"):
         return fixed(v, 4)
     if kind in ("fixed64", "sfixed64"):
@@ -152,7 +152,7 @@ def _f32(v):
 def field(number, kind, v, pad=0):
     """one complete field occurrence: tag [+ length] + payload"""
     wt = wire_type(kind)
-    p = scalar_payload(kind, v)
+    p = scalar_payload(kind, v, pad)
     if wt == 2:
         return cat(tag(number, 2, pad), varint(len(p), pad, 5), p)
     return cat(tag(number, wt, pad), p)
